@@ -185,10 +185,14 @@ KINDS = [
     ("function", types.FunctionType), ("method", types.MethodType), ("type", type), ("code", types.CodeType),
     ("traceback", types.TracebackType), ("frame", types.FrameType), ("generator", types.GeneratorType),
     ("coroutine", types.CoroutineType), ("async_generator", types.AsyncGeneratorType),
+    # "Generic Alias Type" (library reference): "attribute lookups on the alias are forwarded to the original class" - what is
+    # internal on a class is internal on its parameterized alias (dict[str], reachable from the default global `dict`)
+    ("generic_alias", types.GenericAlias),
 ]
 REQUIRED_INTERNAL = {  # kind -> names that must be internal ("*" = every attribute)
     "function": (), "method": (), "type": ("mro",), "code": "*", "traceback": "*", "frame": "*",
     "generator": ("gi_frame", "gi_code"), "coroutine": ("cr_frame", "cr_code"), "async_generator": ("ag_frame", "ag_code"),
+    "generic_alias": ("mro",),
 }
 CONFIGURED = {  # kind -> documented module-level configuration sets that may add names
     "function": ("UNSAFE_FUNCTION_ATTRIBUTES",), "method": ("UNSAFE_FUNCTION_ATTRIBUTES", "UNSAFE_METHOD_ATTRIBUTES"),
@@ -235,7 +239,7 @@ def sample_objects():
         tb = ex.__traceback__
     c = co()
     samples = {"function": f, "method": K().m, "type": str, "code": f.__code__, "traceback": tb, "frame": sys._getframe(),
-               "generator": g(), "coroutine": c, "async_generator": ag(), None: K()}
+               "generator": g(), "coroutine": c, "async_generator": ag(), "generic_alias": dict[str, int], None: K()}
     return samples, c
 
 
@@ -297,6 +301,18 @@ class IsInternal(VC):
     def replay(self, w):
         return replay_internal(w)
 
+    def finding_key(self, res):
+        w = res.witness or {}
+        return f"{w.get('kind')}.{w.get('attr')}"
+
+
+class KeyedTable(FnTask):
+    """table task whose findings are keyed by <kind>.<attr> of the witness"""
+
+    def finding_key(self, res):
+        w = res.witness or {}
+        return f"{w.get('kind')}.{w.get('attr')}"
+
 
 def replay_internal(w):
     samples, c = sample_objects()
@@ -306,7 +322,16 @@ def replay_internal(w):
         want_min = spec_internal(w["kind"], w["attr"], configured=False)
         want_max = spec_internal(w["kind"], w["attr"], configured=True)
         bad = (want_min and not got) or (got and not want_max)
-        return (bool(bad), f"is_internal_attribute(<{w['kind'] or 'plain object'}>, {w['attr']!r}) = {got}; classification: {want_max}")
+        extra = ""
+        if w["kind"] == "generic_alias" and w["attr"] == "mro":
+            # the input of hunt report C17_1
+            try:
+                r = S.SandboxedEnvironment().from_string("{{ dict['x'].mro() }}").render()
+            except SecurityError:
+                r = "<SecurityError>"
+            extra = f"; {{{{ dict['x'].mro() }}}} renders {r!r}"
+            bad = bad or "class" in r
+        return (bool(bad), f"is_internal_attribute(<{w['kind'] or 'plain object'}>, {w['attr']!r}) = {got}; classification: {want_max}" + extra)
     finally:
         c.close()
 
@@ -327,7 +352,9 @@ def internal_live_types(task, tier, seed):
                 except Exception:
                     continue
                 n += 1
-                dangerous = (name.startswith("__") or isinstance(v, (types.FrameType, types.CodeType, types.TracebackType))
+                origin = getattr(o, "__origin__", None) if kind == "generic_alias" else None
+                forwarded = origin is not None and S.is_internal_attribute(origin, name) and getattr(origin, name, None) == v
+                dangerous = (name.startswith("__") or forwarded or isinstance(v, (types.FrameType, types.CodeType, types.TracebackType))
                              or (kind == "type" and name == "mro") or spec_internal(kind, name, configured=False))
                 if dangerous and not S.is_internal_attribute(o, name):
                     bad.append(name)
@@ -482,7 +509,7 @@ class Gate(VC):
     """Whole-view contract of one gate.
 
     getattr (docs: "prefer the attribute"):  v = builtin getattr(obj, name)
-        ok      -> w = wrap_str_format(v);  w if w is not None;  v if is_safe_attribute(obj, name, v);  else unsafe_undefined(obj, name)
+        ok      -> unsafe_undefined(obj, name) unless is_safe_attribute(obj, name, v);  else wrap_str_format(v) if that is not None;  else v
         AttributeError -> obj[name] if that works; on TypeError/LookupError undefined(obj=obj, name=name)
     getitem (docs: "prefer the item"): obj[key] if that works; on TypeError/LookupError, for a string key the attribute branch
         above with name = str(key), and undefined(obj=obj, name=key) when there is no such attribute or the key is no string.
@@ -498,6 +525,11 @@ class Gate(VC):
     def configure(self, I):
         install_ghosts(I)
         gate_env_specs(I)
+        # The decision must be taken by the VIRTUAL method self.is_safe_attribute(obj, name, value) (subclasses such as the
+        # immutable environment override it).  The module-level helpers are given abstract results so that a gate that inlines
+        # "the same rule" instead of calling the method is decided - and refuted - rather than left undecided.
+        I.specs["jinja2.sandbox:is_internal_attribute"] = abstract_pred(internal_fn, "is_internal_attribute")
+        I.specs["jinja2.sandbox:modifies_known_mutable"] = abstract_pred(modifies_fn, "modifies_known_mutable")
         if self.key == "nonstr":
             _sbx.exact_types(I, {"key": int})
         elif self.key == "strsub":
@@ -529,18 +561,28 @@ class Gate(VC):
         """the attribute branch after ``ga`` (the builtin getattr event) succeeded with value v"""
         v = ga.result
         wf, sa, uu = calls(out, "wrap_str_format"), calls(out, "is_safe_attribute"), calls(out, "unsafe_undefined")
-        if len(wf) != 1 or not same(wf[0].args[1], v):
+        if len(wf) > 1 or (wf and not same(wf[0].args[1], v)):
             return False
+        if not wf:
+            # refused before the value was looked at any further
+            if len(sa) != 1 or len(uu) != 1 or not same(out.value, uu[0].result):
+                return False
+            sargs = sa[0].args[1:]
+            ua = uu[0].args[1:]
+            return conj(len(sargs) == 3 and same(sargs[0], self.obj) and same(sargs[2], v), len(ua) == 2 and same(ua[0], self.obj),
+                        True if self.key == "strsub" else conj(name_eq(sargs[1], name_for_getattr), name_eq(ua[1], name_for_getattr)),
+                        z3.Not(to_term(sa[0].result, "bool")))
         w = wf[0].result
         res = out.value
-        if same(res, w):
-            # the wrapper (never None); whether the attribute gate was consulted as well is not observable
-            return conj(not uu, z3.Not(is_none(w)))
+        # the attribute gate decides first, for the format wrapper as well: a private attribute that happens to hold a bound
+        # str.format is not handed out in wrapped form either
         if len(sa) != 1:
             return False
         sargs = sa[0].args[1:]
         ok_args = conj(len(sargs) == 3 and same(sargs[0], self.obj) and same(sargs[2], v), name_eq(sargs[1], name_for_getattr))
         r = to_term(sa[0].result, "bool")
+        if same(res, w):
+            return conj(not uu, ok_args, r, z3.Not(is_none(w)))
         if same(res, v):
             # the raw attribute itself: only behind both gates
             return conj(not uu, ok_args, is_none(w), r)
@@ -548,8 +590,8 @@ class Gate(VC):
             ua = uu[0].args[1:]
             if self.key == "strsub":
                 # nothing is handed out on this path; which of the two spellings of the name is reported is not constrained
-                return conj(len(ua) == 2 and same(ua[0], self.obj), is_none(w), z3.Not(r))
-            return conj(len(ua) == 2 and same(ua[0], self.obj), name_eq(ua[1], name_for_getattr), ok_args, is_none(w), z3.Not(r))
+                return conj(len(ua) == 2 and same(ua[0], self.obj), z3.Not(r))
+            return conj(len(ua) == 2 and same(ua[0], self.obj), name_eq(ua[1], name_for_getattr), ok_args, z3.Not(r))
         return False
 
     def undefined_result(self, out):
@@ -639,9 +681,34 @@ class Gate(VC):
 TRACER, ITEM = object(), object()
 
 
+def hunt_private_format(fn):
+    """the input of hunt report C17_2: private attributes holding bound str.format / format_map"""
+    class Probe:
+        _secret_fmt = "TRACER-class {0}".format
+
+        def __init__(self):
+            self._secret_map = "TRACER-inst {x}".format_map
+    env = S.SandboxedEnvironment()
+    srcs = ["{{ p._secret_fmt('a') }}", "{{ p._secret_map({'x': 1}) }}"] if fn == "getattr" else ["{{ p['_secret_fmt']('a') }}", "{{ (p|attr('_secret_fmt'))('a') }}",
+            "{% for f in [p]|map(attribute='_secret_map') %}{{ f({'x': 2}) }}{% endfor %}"]
+    leaks = []
+    for src in srcs:
+        try:
+            r = env.from_string(src).render(p=Probe())
+        except SecurityError:
+            continue
+        if "TRACER" in r:
+            leaks.append(f"{src} -> {r!r}")
+    return leaks
+
+
 def replay_gate(w):
     """Real SandboxedEnvironment.getattr / getitem on a probe object built from the witness; the oracle is the case
     analysis of the contract plus the property itself (the raw attribute is handed out only behind both gates)."""
+    if w.get("format") and w.get("has_attr"):
+        leaks = hunt_private_format(w["fn"])
+        if leaks:
+            return (True, "private attribute holding a bound str.format handed out as a working wrapper: " + "; ".join(leaks[:2]))
     worst = (False, "")
     for fmt in ([w["format"]] if w.get("format") is not None else [False, True]):
         for safe in ([w["safe"]] if w.get("safe") is not None else [True, False]):
@@ -708,17 +775,21 @@ def replay_gate_one(w):
         return repr(r)
 
     got = kind(r)
+    has_attr_ = w["has_attr"] and lookup is not None and not (w["fn"] == "getitem" and w["has_item"])
     asked_ok = any(c[0] is p and type(c[1]) is str and c[1] == lookup and c[2] is raw for c in calls_)
     ctx = (f"{w['fn']}(probe, {key!r}) [has_attr={w['has_attr']}, has_item={w['has_item']}, str.format={w['format']}, "
            f"is_safe_attribute->{w['safe']}]")
     # the property's own oracle: the raw attribute only behind both gates
     if got == "raw str.format method":
         return (True, f"{ctx} returned the raw str.format method")
+    if got == "format wrapper" and has_attr_ and not (asked_ok and w["safe"]):
+        asked = [c[1] for c in calls_]
+        return (True, f"{ctx} returned the attribute {lookup!r} as a working format wrapper; is_safe_attribute was asked about {asked} and answered {w['safe']}")
     if got == "raw attribute" and not (asked_ok and w["safe"]):
         asked = [c[1] for c in calls_]
         return (True, f"{ctx} returned the raw attribute {lookup!r}; is_safe_attribute was asked about {asked} and answered {w['safe']}")
     has_attr = w["has_attr"] and lookup is not None
-    attr_result = ("format wrapper" if w["format"] else ("raw attribute" if w["safe"] else "security undefined")) if has_attr else None
+    attr_result = ("security undefined" if not w["safe"] else ("format wrapper" if w["format"] else "raw attribute")) if has_attr else None
     if w["fn"] == "getattr":
         want = attr_result or ("item" if w["has_item"] else "undefined")
     else:
@@ -2171,9 +2242,9 @@ def replay_undefined_raises(w):
     return (bool(rs), "; ".join(f"{r.name}: {r.detail}" for r in rs) or "every use of the sandbox undefined raises SecurityError")
 
 
-TASKS = [IsInternal(), FnTask("C17", "C17.internal.live", internal_live_types, "table", replay_safe_live),
+TASKS = [IsInternal(), KeyedTable("C17", "C17.internal.live", internal_live_types, "table", replay_safe_live),
          SafeAttr(S.SandboxedEnvironment), SafeAttr(S.ImmutableSandboxedEnvironment),
-         FnTask("C17", "C17.safe.live", safe_attr_end_to_end, "table", replay_safe_live),
+         KeyedTable("C17", "C17.safe.live", safe_attr_end_to_end, "table", replay_safe_live),
          Gate("getattr"), Gate("getitem"), Gate("getitem", "nonstr"), Gate("getitem", "strsub"),
          UnsafeUndefined(), FnTask("C17", "C17.unsafe_undefined.raises", undefined_raises, "table", lambda w: replay_undefined_raises(w)),
          FormatterInit(S.SandboxedFormatter), FormatterInit(S.SandboxedEscapeFormatter), WrapStrFormat(), GetField(),
